@@ -14,7 +14,7 @@ CLAIMED = {
     "C16": dict(
         engine="srvsim",
         technique="deterministic simulation of the real service in one process: seeded schedules over client requests, gated database calls, parked blocking tasks and a paused clock, with database faults and deadline jumps; answers/graphs judged against truth-table semantics, running-flag and bounded-liveness oracles over the recorded history",
-        text="The real handlers, middleware and solver run in-process against a gated in-memory MongoDB stub; the simulator decides which request is issued next, which parked database call completes next (Ok / fails before / executes but ack lost), when each parse/solve closure finishes, when the clock jumps past the 120 s deadline and when the server process crashes and restarts with only the store surviving. Oracles on every GET: models per strategy equal the definitional answers for the shown code (set-equal, duplicate-free), every graph is a faithful picture (node set = reachable set, one lo/hi edge per inner node, evaluation equals the acceptance condition under every assignment extending the shown model), unparseable code shows an error, an ended task is not listed as running; at quiescence every acknowledged solve has its result. Exploration-level evidence.",
+        text="The real handlers, middleware and solver run in-process against a gated in-memory MongoDB stub; the simulator decides which request is issued next, which parked database call completes next (Ok / fails before / executes but ack lost), when each parse/solve closure finishes, when the clock jumps past the 120 s deadline and when the server process crashes and restarts with only the store surviving. Oracles on every GET: models per strategy equal the definitional answers for the shown code (set-equal, duplicate-free), every graph is a faithful picture (node set = reachable set, one lo/hi edge per inner node, evaluation equals the acceptance condition under every assignment extending the shown model), unparseable code shows an error, an ended task is not listed as running; at quiescence every acknowledged solve has its result. One open known finding (results lost when the owner's account name changes while the task is in flight). Exploration-level evidence.",
         design_ref="DESIGN.md 5.7",
         note="Trusted: MongoDB stub, refsem, the graph checker, the seam hook (two added lines per closure). Real: everything under /repo/server/src except main()'s socket binding, the whole library.",
     ),
@@ -28,7 +28,7 @@ CLAIMED = {
     "C11": dict(
         engine="libsim",
         technique="deterministic simulation (fault-free configuration of the history engine): seeded call histories on one long-lived object, seeded entropy seam, differential oracles against a fresh twin and a second independently hashed execution",
-        text="Seeded search over call histories (1-25/30 public API calls in any order on one Adf: all semantics, nogood search with each built-in heuristic incl. Rand under drawn seeds, counts, facets, diagram queries, extra formulas on the shared diagram). Verdicts: every answer equals that of a fresh object asked only that question (lists in order, undecided entries and handles compared as functions by a table walker); every issued handle keeps its function after every later call; the plan executed twice on independently built objects gives identical logs incl. raw handles. Exploration-level evidence; this is the fault-free configuration whose fault-injecting counterpart is C14.",
+        text="Seeded search over call histories (1-25/30 public API calls in any order on one Adf: all semantics, nogood search with each built-in heuristic incl. Rand under drawn seeds, counts, facets, diagram queries, extra formulas on the shared diagram). Verdicts: every answer equals that of a fresh object asked only that question (lists in order, undecided entries and handles compared as functions by a table walker); every issued handle keeps its function after every later call; the plan executed twice on independently built objects gives identical logs incl. raw handles. Exploration-level evidence; this is the fault-free configuration whose fault-injecting counterpart is C14. A second part (store) runs long histories (up to 130 000 calls, up to 16 variables, far-apart variable indices, restriction storms at counter boundaries) on one diagram store and judges every result on 32 sampled assignments against its definition.",
         design_ref="DESIGN.md 5.3",
         note="Trusted: table walker, harness. Hash-iteration order is varied, not controlled. Insensitive by design to purely functional bugs (wrong on both sides).",
     ),
@@ -42,8 +42,8 @@ CLAIMED = {
     "C06": dict(
         engine="libsim",
         technique="deterministic simulation: canonicity invariant evaluated after every step of seeded histories with injected restarts / bridge imports and on streaming mirrors after every scheduled poll",
-        text="Scoped claim: the node table stays reduced, ordered, duplicate-free with constants first, and distinct handles denote distinct functions (hence top/bottom iff valid/unsatisfiable), after every step of histories containing JSON re-imports, node-list rebuilds and bridge imports, for everything built afterwards, and on streaming mirrors after every poll under seeded schedules (incl. re-creating every entry on the drained mirror: existing handle, no growth). Operand functions are sampled. Exploration-level evidence.",
-        design_ref="DESIGN.md 5.5",
+        text="Scoped claim: the node table stays reduced, ordered, duplicate-free with constants first, and distinct handles denote distinct functions (hence top/bottom iff valid/unsatisfiable), after every step of histories containing JSON re-imports, node-list rebuilds and bridge imports, for everything built afterwards, and on streaming mirrors after every poll under seeded schedules (incl. re-creating every entry on the drained mirror: existing handle, no growth). Operand functions are sampled. A third part (store) judges structural canonicity and sampled function values through tens of thousands of operations on one store over up to 16 variables, incl. variable indices 65 536 and 2^32 apart. Exploration-level evidence.",
+        design_ref="DESIGN.md 5.5, 13.2",
         note="Trusted: table walker and structural checker. The purely sequential part of canonicity over plain operand functions is a pure property and not claimed.",
     ),
     "C05": dict(
